@@ -8,8 +8,8 @@
     ([all_fixed]: the tree the check runs against; [pinned]: the tree as found).
     Spec (Val/CoerceSpec.v): [conforms], [ref_coerce] (RefCoerce), [ref_request]. *)
 From Coq Require Import List NArith ZArith Bool.
-From ApiFu Require Import Base.Sexp Val.Values Val.CoerceModel Val.CoerceSpec Val.CoerceProofs Val.FloatExact Val.CoerceReasons Val.CoerceRefine Val.CoerceRoutes Val.CoerceSameValue Val.CoerceTotal Val.CoerceComplete Val.BridgeC04 Val.BridgeC04Proofs Val.BridgeC04Doc.
-From ApiFu Require Vld.Ast Vld.ValidatorModel.
+From ApiFu Require Import Base.Sexp Val.Values Val.CoerceModel Val.CoerceSpec Val.CoerceProofs Val.FloatExact Val.CoerceReasons Val.CoerceRefine Val.CoerceRoutes Val.CoerceSameValue Val.CoerceTotal Val.CoerceComplete Val.BridgeC04 Val.BridgeC04Proofs Val.BridgeC04Doc Val.BridgeC04Full.
+From ApiFu Require Vld.Ast Vld.ValidatorModel Vld.Inspect Vld.TypeInfoModel Vld.ProofsValues Vld.ProofsTypeInfoValues.
 Import ListNotations.
 
 (** Hypotheses, all true of the real system and checked on every case of the correspondence:
@@ -367,6 +367,60 @@ Theorem C05_C04_variable_usage : forall E (def : vardef) (d' : Ast.vardef) loc l
   = var_usage_ok E def loc ld.
 Proof. exact variable_usage_tr. Qed.
 
+(** ** round 5: through C04's pipeline (uses C04's interface lemmas on NewTypeInfo, [rule_values_eq],
+    [rule_variables_fine], [validate_memo_iff_parsed]).
+    PROVED: from the verdict of C04's whole ValidateDocument model on the translated request
+    (field site) to the two validateVariables conjuncts about the definitions
+    ([C05_C04_document_variable_definitions]: memo -> plain pipeline -> every rule silent on the
+    annotated document [pti_doc] -> the variables rule -> C05's conjuncts); the usage walk
+    ([C05_C04_usage_bridge]: C04's [usage_errs] on the annotated argument value, silent, gives
+    C05's [usage_ok], nested lists and objects included); the values rule on one annotated value
+    ([C05_C04_annotated_value_validates]) through the coercion bridge over the request schema
+    ([C05_C04_coercion_bridge_closed]: any schema agreeing with [tr_env E] on E's names, closed
+    types).  [n_Query] and [n_Res] (the result scalar of f and g) are names reserved for the
+    bridge.
+    NOT PROVED, what is left of C05_C04_accepts_implies_static_ok: picking the per-node facts out
+    of C04's flat_map over the concrete annotated tree for the arguments / values / usages rules
+    (the node is there: [annotated]; the membership bookkeeping is not written), the "every
+    variable is used" conjunct, and the directive site (same argument through [ti_dir]).  The
+    verdict equality [c04_document_accepts = static_ok] stays evaluated on every case. *)
+Theorem C05_C04_document_variable_definitions : forall E argdefs defs args,
+  ahas n_Query E = false ->
+  (forall def, In def defs -> leaf_name (vd_type def) <> n_Res) ->
+  ValidatorModel.validate_model_memo ValidatorModel.repaired ValidatorModel.id_order
+    (tr_request_schema E true argdefs) [] (tr_request_doc None defs args) = Ast.Done [] ->
+  has_dup (map vd_name defs) = false /\
+  (forall def, In def defs -> type_known E (vd_type def) = true).
+Proof. exact field_site_variable_definitions. Qed.
+
+Theorem C05_C04_usage_bridge : forall E dt sf argdefs defs,
+  (forall def, In def defs -> type_known E (vd_type def) = true) ->
+  forall l t a ld,
+  validate_coercion E dt l t a = true ->
+  ProofsTypeInfoValues.usage_errs true (tr_request_schema E sf argdefs)
+    (map (TypeInfoModel.ti_vardef true (tr_request_schema E sf argdefs) []) (tr_vardefs 0 defs))
+    false (Some (tr_sty t)) ld (tr_lit l) = [] ->
+  usage_ok all_fixed E defs l (Some t) ld = true.
+Proof. exact usage_bridge. Qed.
+
+Theorem C05_C04_coercion_bridge_closed : forall E dt (S : Ast.schema),
+  (forall n td, aget n E = Some td -> Ast.raw_body S n = Some (tr_tdef td)) ->
+  env_closed E = true -> leaves_agree E dt ->
+  forall l t a, sty_closed E t = true ->
+  match ValidatorModel.coercion ValidatorModel.repaired ValidatorModel.id_order S (tr_lit l) (tr_sty t) a with
+  | ValidatorModel.VR [] => true
+  | _ => false
+  end = validate_coercion E dt l t a.
+Proof. exact bridge_closed. Qed.
+
+Theorem C05_C04_annotated_value_validates : forall E dt argdefs,
+  env_closed E = true -> leaves_agree E dt ->
+  forall l t dd, sty_closed E t = true ->
+  ProofsValues.val_f ValidatorModel.id_order (tr_request_schema E true argdefs)
+    (Inspect.NValue (TypeInfoModel.ti_value true (tr_request_schema E true argdefs) (Some (tr_sty t)) dd (tr_lit l))) = [] ->
+  validate_coercion E dt l t true = true.
+Proof. exact annotated_value_validates. Qed.
+
 (** the repaired defects: the same statements are false of the code as found *)
 Theorem C05_args_conform_refuted_before_fix :
   exists argdefs defs args raw m,
@@ -425,6 +479,10 @@ Print Assumptions C05_C04_accepts_implies_static_ok_partial.
 Print Assumptions C05_static_ok_split.
 Print Assumptions C05_C04_types_compatible.
 Print Assumptions C05_C04_variable_usage.
+Print Assumptions C05_C04_document_variable_definitions.
+Print Assumptions C05_C04_usage_bridge.
+Print Assumptions C05_C04_coercion_bridge_closed.
+Print Assumptions C05_C04_annotated_value_validates.
 Print Assumptions C05_route_independent.
 Print Assumptions C05_integer_literal_is_exact_float.
 Print Assumptions C05_validator_types_differ_in_non_null_only.
